@@ -23,7 +23,7 @@ THEOREMS = {
         "Dawgs.C05.Facts.parameter_map_copied",
         "Dawgs.C05.Facts.caller_query_only_copied",
         "Dawgs.C05.Facts.generic_shape",
-        "Dawgs.C05.Facts.kind_mapper_locked_or_known",
+        "Dawgs.C05.Facts.kind_mapper_locked",
         "Dawgs.C05.Facts.kind_mapper_single_writer",
     ],
     # the first-match loop of PruneDefinitions over the alias map is justified by C06's invariant
@@ -140,7 +140,7 @@ SPEC = {
                      "Go race detector in the thorough tier"],
     "assumptions": ["panic-freedom and bounded time of the translator are covered by search only, not by proof",
                     "deepness of cypher.Copy field by field is C11's theorem (copy_equal_and_fresh over the regenerated schema); C05 uses the minimal address model and checks AST immutability at run time",
-                    "concurrency: the kind mapper is pre-populated; translating CREATE with an unknown kind writes the unsynchronised InMemoryKindMapper (known finding)"],
+                    "concurrency: one InMemoryKindMapper is shared by the whole run; the race probe asserts NEW kinds from 16 goroutines (locked since the fix)"],
     "extra_coverage": extra_coverage,
     "explanation": "Lean proof for walk termination / error discipline, copy isolation (minimal models shared with C11) and iteration-order independence of every "
                    "map range (typed extractor + generic permutation lemma); search only for panic-freedom, bounded time, run-to-run and concurrent determinism and input immutability",
@@ -158,10 +158,11 @@ MANIFEST = {
             "loops; NewTranslator copies the caller's parameter map and nothing writes through it. NOT proved: absence of panics and hangs in the 22k-line translator, run-to-run "
             "and concurrent determinism of the whole, deep immutability of parameter values — these are searched: every corpus, generated, mutated, builder-built and "
             "hand-assembled AST is translated 10x sequentially and 16x concurrently against one shared kind mapper with byte comparison and before/after comparison of the inputs.",
-    "note": "Known findings on the unchanged tree (specific keys in known_findings.json): F10 nil-parameter panic (shared with C06); panics on two ordinary parsed queries "
-            "(quantifier without WHERE; quantifier in a query part without MATCH); MapStringAnyToJSONB rewrites nil slices inside the caller's nested map parameters; "
-            "pgutil.InMemoryKindMapper has no lock (concurrent CREATE with new kinds = fatal concurrent map writes); nil-dereference / index panics at 12 sites on hand-assembled "
-            "or mutated ASTs that parser and builders never produce. Trusted: Lean kernel, extractors, harness.",
+    "note": "Five defects found by this check are fixed (known_findings.json, status fixed): F10 nil-parameter panic (shared with C06); panics on two ordinary parsed queries "
+            "(quantifier without WHERE; quantifier in a query part without MATCH); MapStringAnyToJSONB rewriting nil slices inside the caller's nested map parameters; "
+            "pgutil.InMemoryKindMapper without a lock (concurrent CREATE with new kinds = fatal concurrent map writes) — the lock table is now a plain obligation "
+            "(kind_mapper_locked). Nil-dereference / index panics on hand-assembled or mutated ASTs that parser and builders never produce are outside the quantifier and are "
+            "counted in the evidence as information only. Trusted: Lean kernel, extractors, harness.",
 }
 
 
